@@ -4,6 +4,7 @@ import MuduoVerif.Proofs.Inet
 import MuduoVerif.Proofs.SysSkelTie
 import MuduoVerif.Proofs.TzFile
 import MuduoVerif.Proofs.TzFileSkelTie
+import MuduoVerif.Proofs.TsText
 /-!
 # C20 — calendar, time-zone and address conversions round-trip and agree with their specification
 
@@ -330,9 +331,9 @@ theorem tzfile_reader_tied :
     Gen.TzFileSkel.addLocalTime = TzFileSkel.Decl.addLocalTime ∧ Gen.TzFileSkel.addTransition = TzFileSkel.Decl.addTransition ∧
     Gen.TzFileSkel.transitionCtor = TzFileSkel.Decl.transitionCtor ∧ Gen.TzFileSkel.localTimeCtor = TzFileSkel.Decl.localTimeCtor ∧
     Gen.TzFileSkel.loadZoneFile = TzFileSkel.Decl.loadZoneFile :=
-  ⟨TzFileSkel.param_readInt32, TzFileSkel.param_readInt64, TzFileSkel.param_readUInt8, TzFileSkel.param_timeReader,
-   TzFileSkel.param_timeElemTy, TzFileSkel.param_headerCounts, TzFileSkel.param_blockCounts, TzFileSkel.param_v1BlockSkip,
-   TzFileSkel.param_blockSkips, TzFileSkel.param_ttinfoReaders, TzFileSkel.param_ttinfo, TzFileSkel.skeleton_fileReadInt32,
+  ⟨TzFileSkel.tie_readInt32, TzFileSkel.tie_readInt64, TzFileSkel.tie_readUInt8, TzFileSkel.tie_timeReader,
+   TzFileSkel.tie_timeElemTy, TzFileSkel.tie_headerCounts, TzFileSkel.tie_blockCounts, TzFileSkel.tie_v1BlockSkip,
+   TzFileSkel.tie_blockSkips, TzFileSkel.tie_ttinfoReaders, TzFileSkel.tie_ttinfo, TzFileSkel.skeleton_fileReadInt32,
    TzFileSkel.skeleton_fileReadInt64, TzFileSkel.skeleton_fileReadUInt8, TzFileSkel.skeleton_fileReadBytes,
    TzFileSkel.skeleton_fileSkip, TzFileSkel.skeleton_readDataBlock, TzFileSkel.skeleton_readTimeZoneFile,
    TzFileSkel.skeleton_addLocalTime, TzFileSkel.skeleton_addTransition, TzFileSkel.skeleton_transitionCtor,
@@ -429,6 +430,45 @@ theorem sampleZone_parsed :
       = some ([(-3000000000, -2999996400, 1), (-1000000000, -1000000000, 0), (5000000000, 5000003600, 1)],
               [10, 71, 77, 84, 48, 10]) ∧
     (TzFile.parse ((TzFile.serialize sampleZone).take 150)).toOption.isNone := by
+  decide +kernel
+
+/-! ## text forms of `Timestamp` (`toString`, `toFormattedString`) -/
+
+/-- **T1**: the split of the microsecond count (`/` and `%` by `kMicroSecondsPerSecond`), the three `snprintf` formats
+(character by character), the sizes of their buffers, their arguments in order, the `gmtime_r` call and the test that
+selects the format with microseconds are, in /repo's `Timestamp.cc` as it is now, what `Model/Calendar.lean` renders
+and what the next theorem was proved for. -/
+theorem timestamp_text_tied :
+    Gen.TsText.toStringSeconds = TsText.Decl.toStringSeconds ∧ Gen.TsText.toStringMicros = TsText.Decl.toStringMicros ∧
+    Gen.TsText.toStringFormat = TsText.Decl.toStringFormat ∧ Gen.TsText.toStringBuf = TsText.Decl.toStringBuf ∧
+    Gen.TsText.toStringArgs = TsText.Decl.toStringArgs ∧
+    Gen.TsText.formattedSeconds = TsText.Decl.formattedSeconds ∧ Gen.TsText.formattedMicros = TsText.Decl.formattedMicros ∧
+    Gen.TsText.formattedShowsMicros = TsText.Decl.formattedShowsMicros ∧
+    Gen.TsText.formattedFormatMicro = TsText.Decl.formattedFormatMicro ∧ Gen.TsText.formattedBufMicro = TsText.Decl.formattedBufMicro ∧
+    Gen.TsText.formattedArgsMicro = TsText.Decl.formattedArgsMicro ∧
+    Gen.TsText.formattedFormat = TsText.Decl.formattedFormat ∧ Gen.TsText.formattedBuf = TsText.Decl.formattedBuf ∧
+    Gen.TsText.formattedArgs = TsText.Decl.formattedArgs ∧ Gen.TsText.formattedGmtime = TsText.Decl.formattedGmtime :=
+  TsText.text_forms_tied
+
+/-- **the text forms read back to the instant they were printed from**: for every non-negative microsecond count that
+fits `int64_t`, `toString` (`"<seconds>.<6 digits>"`) reads back to the microsecond; when the year has at most four
+digits, `toFormattedString(true)` (`"YYYYMMDD HH:MM:SS.uuuuuu"`) reads back to the microsecond and
+`toFormattedString(false)` to the second - the date through the translated `fromUtcTime`, i.e. the printed fields are
+the proleptic Gregorian date and time of day of that instant (`break_spec`).  (That `gmtime_r` / `strftime` print the
+same is the tested half of the property.) -/
+theorem timestamp_text_roundtrip (us : Int) (h0 : 0 ≤ us) (h1 : us < 2 ^ 63) :
+    parseToString (tsToStringChars us) = some us ∧
+    (0 ≤ (BreakTime (us / 1000000)).year → (BreakTime (us / 1000000)).year ≤ 9999 →
+      parseFormatted (tsFormattedChars us true) = some us ∧
+      parseFormatted (tsFormattedChars us false) = some (us / 1000000 * 1000000)) :=
+  ⟨toString_roundtrip us h0 h1, fun hy0 hy => formatted_roundtrip us h0 hy hy0⟩
+
+/-- non-vacuity: 2023-11-14 22:13:20.123456 UTC -/
+theorem timestamp_text_sample :
+    (BreakTime (1700000000123456 / 1000000)).year = 2023 ∧
+    tsToStringChars 1700000000123456 = "1700000000.123456".toList ∧
+    tsFormattedChars 1700000000123456 true = "20231114 22:13:20.123456".toList ∧
+    parseFormatted "20231114 22:13:20.123456".toList = some 1700000000123456 := by
   decide +kernel
 
 /-! ## T1, the address functions -/
